@@ -15,7 +15,8 @@ TRUSTED = ["hand-written model Model/ForceSys.v tied to fmatrix._build_matrix/ge
            "row order follows the implementation's tj_vertices (iteration order of a Python set; the property does not fix it)"]
 ASSUMPTIONS = ["circle-fit accuracy (fit_delta, calibrated by tools/calibrate_fit.py after the fix of D25): 1e-5 (dlite) / 1e-6 (taubinSVD) on arcs, 1e-3 on "
                "straight interfaces with >= 3 points, 1e-12 for two-point interfaces"]
-TESTED_NOT_PROVED = ["that the fitted centre is the centre of the arc (circle-fit contract) is checked numerically per interface"]
+TESTED_NOT_PROVED = ["that leastsq / taubinSVD reach the centre of the arc is checked numerically per interface (c02.fit_delta); that the centre is the only global "
+                     "minimiser of the 'dlite' cost on concyclic points is proved (C02_dlite_cost_minimised_exactly_at_the_centre); no such statement is proved for taubinSVD"]
 IMPORTS = "From Forsys Require Import Model.Num Model.CaseUtil Model.PyList Model.Interfaces Model.ForceSys Model.CircleFit.\n"
 
 
